@@ -1,6 +1,8 @@
 package catalog
 
 import (
+	"fmt"
+
 	"github.com/jsightapi/jsight-schema-core/notations/jschema/ischema"
 )
 
@@ -24,15 +26,20 @@ func (b PathVariablesBuilder) Len() int {
 	return b.objectBuilder.Len()
 }
 
-func (b PathVariablesBuilder) Build() *PathVariables {
+func (b PathVariablesBuilder) Build() (*PathVariables, error) {
 	uutNames := b.objectBuilder.UserTypeNames()
 	for _, name := range uutNames {
 		if ut, ok := b.catalogUserTypes.Get(name); ok {
+			var err error
 			switch es := ut.Schema.(type) {
 			case *ExchangeJSightSchema:
-				b.objectBuilder.AddType(name, es.JSchema)
+				err = b.objectBuilder.AddType(name, es.JSchema)
 			case *ExchangeRegexSchema:
-				b.objectBuilder.AddType(name, es.RSchema)
+				err = b.objectBuilder.AddType(name, es.RSchema)
+			}
+			if err != nil {
+				return nil, fmt.Errorf("the user type %s cannot be used for a path parameter:"+
+					" the example of its regular expression cannot be written as a JSON string", name)
 			}
 		}
 	}
@@ -45,5 +52,5 @@ func (b PathVariablesBuilder) Build() *PathVariables {
 
 	return &PathVariables{
 		Schema: es,
-	}
+	}, nil
 }
